@@ -73,6 +73,9 @@ pub enum Step {
     /// a Notice of Disconnection (message id 0) arrives in the middle of a search; the server then carries on and
     /// completes the search. how: 0 = direct stream, 1 = EntriesOnly stream, 2 = search()
     SearchWithNotice { how: u8, n: u8 },
+    /// a pending operation is abandoned from another handle, but its own future is only polled again later - after
+    /// the released id has been handed to a new operation; that operation's reservation must survive
+    AbandonNoticedLate,
 }
 
 #[derive(Clone, Debug, Serialize, Deserialize)]
@@ -106,6 +109,7 @@ fn strat(_: &Ctx) -> BoxedStrategy<Case> {
         1 => (any::<bool>(), any::<bool>()).prop_map(|(second_is_search, late)| Step::DoubleTimeout { second_is_search, late }),
         1 => any::<bool>().prop_map(|adapted| Step::PagedFinishWhileIdReused { adapted }),
         1 => (0u8..3, 0u8..4).prop_map(|(how, n)| Step::SearchWithNotice { how, n }),
+        1 => Just(Step::AbandonNoticedLate),
     ];
     (vec(step, 3..=14), 1u8..=3, any::<u64>()).prop_map(|(steps, repeat, sched)| Case { steps, repeat, sched }).boxed()
 }
@@ -568,6 +572,46 @@ async fn do_step(cx: &mut Cx, step: &Step) -> Result<(), Fail> {
             };
             ensure!(got == *n as usize && rc == 0, "c13:search-entries", "search with an id-0 notice in the middle yielded {} of {} entries, rc {}", got, n, rc);
         }
+        Step::AbandonNoticedLate => {
+            let (_, mk_v) = cx.plan(Plan::Silent { late: false });
+            let mut l2 = cx.ldap.clone();
+            // the victim's future is polled by hand: once to get its request out, and again only much later
+            let mut victim = Box::pin(async move { l2.delete(&mk_v).await.map(|r| r.rc).map_err(|e| err_kind(&e)) });
+            ensure!(futures_util::poll!(victim.as_mut()).is_pending(), "c13:op-failed", "an unanswered operation completed");
+            quiesce().await;
+            let Some((vid, _, _)) = ({ cx.sh.lock().unwrap().silent_ids.pop() }) else { fail!("c13:op-failed", "victim request never reached the server") };
+            let r = cx.ldap.abandon(vid as i32).await;
+            ensure!(r.is_ok(), "c13:abandon-failed", "abandon({}) failed: {:?}", vid, r.err().map(|e| err_kind(&e)));
+            quiesce().await;
+            // the released id goes to a new operation X (as after a wrap-around)
+            let mut spawn_probe = |cx: &mut Cx| {
+                cx.msgmap.lock().unwrap().0 = (vid - 1) as i32;
+                let (_, mk) = cx.plan(Plan::Silent { late: false });
+                let mut l = cx.ldap.clone();
+                tokio::spawn(async move { l.delete(&mk).await.map(|r| r.text).map_err(|e| err_kind(&e)) })
+            };
+            let x = spawn_probe(cx);
+            quiesce().await;
+            let Some((xid, xtag, _)) = ({ cx.sh.lock().unwrap().silent_ids.pop() }) else { fail!("c13:op-failed", "probe X never reached the server") };
+            // only now does the abandoned caller look at its operation again
+            match futures_util::poll!(victim.as_mut()) {
+                std::task::Poll::Ready(Err(_)) => {}
+                other => fail!("c13:abandon-waiter-got-ok", "the abandoned operation's future gave {:?} when polled after the abandon", other),
+            }
+            quiesce().await;
+            // one more allocation from the same counter position: X still holds its id, so Y must get another one
+            let y = spawn_probe(cx);
+            quiesce().await;
+            let Some((yid, ytag, _)) = ({ cx.sh.lock().unwrap().silent_ids.pop() }) else { fail!("c13:op-failed", "probe Y never reached the server") };
+            ensure!(yid != xid, "c13:duplicate-id-after-abandon", "operation X is outstanding under id {} (handed to it after that id's previous holder was abandoned); once the abandoned caller had noticed, operation Y was given the same id {}", xid, yid);
+            cx.wire.push(&RespMsg::new(xid, Resp::result(xtag, Res::ok("x"))).encode());
+            cx.wire.push(&RespMsg::new(yid, Resp::result(ytag, Res::ok("y"))).encode());
+            let (rx, ry) = (tokio::time::timeout(Duration::from_secs(3600), x).await, tokio::time::timeout(Duration::from_secs(3600), y).await);
+            ensure!(matches!(&rx, Ok(Ok(Ok(t))) if t == "x") && matches!(&ry, Ok(Ok(Ok(t))) if t == "y"), "c13:op-failed", "operations issued after an abandon ended with {:?} / {:?}", rx, ry);
+            if xid == vid {
+                cx.notes.push("abandoned-id-reused-before-the-caller-noticed".into());
+            }
+        }
         Step::SearchConvTimeout { late } => {
             let (_, mk) = cx.plan(Plan::Silent { late: *late });
             cx.ldap.with_timeout(Duration::from_millis(50));
@@ -724,6 +768,7 @@ fn step_class(s: &Step) -> String {
         Step::Rewind(_) => "rewind-id-counter".into(),
         Step::SearchWithForeign { adapted, .. } => format!("search-with-foreign-response-{}", if *adapted { "adapted" } else { "direct" }),
         Step::SearchConvTimeout { .. } => "search()-timeout".into(),
+        Step::AbandonNoticedLate => "abandon-noticed-late".into(),
         Step::SearchWithNotice { how, .. } => format!("search-with-id0-notice-{}", ["direct", "entries-only", "search()"][*how as usize % 3]),
         Step::LocalFailure(k) => format!("local-failure-{}", k % 5),
         Step::DoubleTimeout { second_is_search, .. } => format!("double-timeout-{}", if *second_is_search { "op+search" } else { "op+op" }),
